@@ -90,7 +90,7 @@ func mentionsHas(flagType string, flag int64) func(ssa.Value) bool {
 		if !ok || !core.NameIs(core.CalleeName(c), bp7+"."+flagType+".Has") {
 			return false
 		}
-		k, ok := core.ConstInt(core.CallArgs(c)[0])
+		k, ok := core.ConstInt(core.Arg(c, 0))
 		return ok && k == flag
 	}
 }
@@ -234,7 +234,7 @@ func C02(p *core.Program, r *core.Report) {
 	pb := p.Func(bp7, "", "ParseBundle")
 	okPB := false
 	for _, c := range core.CallsTo(pb, cbor+".Unmarshal") {
-		if core.TypeIs(core.Strip(core.CallArgs(c)[0]).Type(), bp7, "Bundle") {
+		if core.TypeIs(core.Strip(core.Arg(c, 0)).Type(), bp7, "Bundle") {
 			okPB = true
 		}
 	}
@@ -332,7 +332,7 @@ func C02(p *core.Program, r *core.Report) {
 			if !ok || !core.NameIs(core.CalleeName(cc), bp7+".Bundle.ExtensionBlock") {
 				return false
 			}
-			k, _ := core.ConstInt(core.CallArgs(cc)[0])
+			k, _ := core.ConstInt(core.Arg(cc, 0))
 			return k == c("ExtBlockTypeBundleAgeBlock")
 		}}},
 		{"lifetime-not-exceeded", cv, []func(ssa.Value) bool{mentionsCall(bp7 + ".Bundle.IsLifetimeExceeded")}},
@@ -369,7 +369,7 @@ func C02(p *core.Program, r *core.Report) {
 			}
 			nre++
 			key := "regexp-anchored/" + fname(g)
-			k, isC := core.CallArgs(cc)[0].(*ssa.Const)
+			k, isC := core.Arg(cc, 0).(*ssa.Const)
 			if !isC || k.Value == nil || k.Value.Kind() != constant.String {
 				r.Unknown(key, "the pattern compiled here is a constant", p.Pos(cc.Pos()), "pattern is not a compile-time constant")
 				return
